@@ -85,6 +85,7 @@ PROPS = {
     "C07": dict(
         module="SeliumModel.Props.C07",
         suites=["topic", "registry"],
+        fn_tie=[dict(module="SeliumModel.Props.C07Gen", gen="TopicFn")],
         level="proof",
         rule="TopicName::try_from / create / Display on: hand-picked strings, boundary lengths 2/3/4/63/64/65 in characters with 1-, 2- and 3-byte characters, every ASCII character in four positions, every boundary (lo-1, lo, hi, hi+1) of all ranges of the regex crate's [\\w-] class, random strings over an alphabet with slashes, multi-byte characters and the reserved word, structured mostly-valid names; create() vs try_from(printed form); "
              "distinct = distinct case lines; none counted trivial",
